@@ -170,7 +170,7 @@ struct GateState {
     realised: bool,
 }
 
-fn run_gated(tracer: &Tracer, rng: &mut StdRng, tag: Value) {
+fn run_gated(tracer: &Tracer, rng: &mut StdRng, park_at_open: bool, tag: Value) {
     tracer.reset_canon();
     let mut cfg = Cfg::default();
     cfg.threads = 1;
@@ -190,7 +190,14 @@ fn run_gated(tracer: &Tracer, rng: &mut StdRng, tag: Value) {
     let st2 = st.clone();
     w.dir.set_gate(Some(Arc::new(move |op: &OpInfo, after: bool| {
         let (m, cv) = &*st2;
-        if op.role == "gate-reader" && op.op == "atomic_read" && op.path == "meta.json" && after {
+        // park point 1: right after the reader has read meta.json; park point 2: right before it
+        // opens its first segment file
+        let here = if park_at_open {
+            op.role == "gate-reader" && op.op == "open_read" && !after && op.path.starts_with('s')
+        } else {
+            op.role == "gate-reader" && op.op == "atomic_read" && op.path == "meta.json" && after
+        };
+        if here {
             let mut g = m.lock().unwrap();
             if g.armed && !g.parked {
                 g.parked = true;
@@ -271,7 +278,7 @@ fn run_gated(tracer: &Tracer, rng: &mut StdRng, tag: Value) {
     let _ = h.join();
     let realised = st.0.lock().unwrap().realised;
     w.dir.set_gate(None);
-    tracer.emit(json!({"ev":"schedule","name":"reader parked after atomic_read(meta.json)","realised":realised}));
+    tracer.emit(json!({"ev":"schedule","name":if park_at_open { "reader parked before its first open_read of a segment file" } else { "reader parked after atomic_read(meta.json)" },"realised":realised}));
     w.exec(&json!({"op":"wait_merges"}));
     tantivy::verif::set_sink(None);
     tracer.emit(json!({"ev":"end","listing":w.dir.listing(),"locks":w.dir.lock_files()}));
@@ -292,7 +299,7 @@ fn main() {
         }
         "gated" => {
             for r in 0..runs {
-                run_gated(&tracer, &mut rng, json!({"seed":seed,"run":r,"gated":true}));
+                run_gated(&tracer, &mut rng, r % 2 == 1, json!({"seed":seed,"run":r,"gated":true}));
             }
         }
         _ => {
